@@ -167,7 +167,7 @@ func (e *BinaryOpExpr) execEqualBatch(chunk []KVPair, not bool, ctx *ExecuteCtx)
 	}
 	var (
 		isStr  = false
-		isInt  = false
+		isNum  = false
 		isBool = false
 	)
 	if len(chunk) == 0 {
@@ -177,8 +177,8 @@ func (e *BinaryOpExpr) execEqualBatch(chunk []KVPair, not bool, ctx *ExecuteCtx)
 	switch rleft[0].(type) {
 	case string, []byte:
 		isStr = true
-	case int, int8, int16, int32, int64, uint, uint8, uint16, uint32, uint64:
-		isInt = true
+	case int, int8, int16, int32, int64, uint, uint8, uint16, uint32, uint64, float32, float64:
+		isNum = true
 	case bool:
 		isBool = true
 	default:
@@ -198,16 +198,17 @@ func (e *BinaryOpExpr) execEqualBatch(chunk []KVPair, not bool, ctx *ExecuteCtx)
 				rleft[i] = bytes.Equal(left, right)
 			}
 		}
-		if isInt {
-			left, lok := convertToInt(rleft[i])
-			right, rok := convertToInt(rright[i])
-			if !lok || !rok {
+		if isNum {
+			// Same rule as > >= < <=: two integers compare as integers,
+			// otherwise both sides compare as float64
+			eq, err := execNumberCompare(rleft[i], rright[i], "=")
+			if err != nil {
 				return nil, NewExecuteError(e.GetPos(), "= operator left or right expression has wrong type")
 			}
 			if not {
-				rleft[i] = left != right
+				rleft[i] = !eq
 			} else {
-				rleft[i] = left == right
+				rleft[i] = eq
 			}
 		}
 		if isBool {
